@@ -88,13 +88,16 @@ Proof.
 Qed.
 
 (* ---------- header ---------- *)
-Lemma kth_header_skips : forall skips n rest, Forall kth_skip skips -> 0 <= n ->
-  gio_kth_header (skips ++ (gt_print_Z n ++ [gt_nl]) :: rest) = GOk (n, rest).
+Lemma kth_next_skips : forall skips n rest, Forall kth_skip skips -> 0 <= n ->
+  gio_kth_next (skips ++ (gt_print_Z n ++ [gt_nl]) :: rest) = GOk (n, rest).
 Proof.
   induction skips as [|l t IH]; intros n rest HF Hn.
-  - cbn [app gio_kth_header]. now rewrite kth_line_size.
-  - inversion HF as [|x y Hl Ht]; subst. cbn [app gio_kth_header]. rewrite (Hl (-1)). now apply IH.
+  - cbn [app gio_kth_next]. now rewrite kth_line_size.
+  - inversion HF as [|x y Hl Ht]; subst. cbn [app gio_kth_next]. rewrite (Hl (-1)). now apply IH.
 Qed.
+Lemma kth_header_skips af skips n rest : Forall kth_skip skips -> 0 <= n ->
+  gio_kth_header_gen af (skips ++ (gt_print_Z n ++ [gt_nl]) :: rest) = GOk (n, rest).
+Proof. intros HF Hn. unfold gio_kth_header_gen. now rewrite kth_next_skips. Qed.
 
 (* names the writer can be given: every line of "c <name>\n" is skipped by the reader *)
 Definition kth_name_ok (name : gt_str) : Prop := Forall kth_skip (gt_lines ([gt_c; gt_sp] ++ name ++ [gt_nl])).
@@ -180,10 +183,10 @@ Proof.
   rewrite lines_line by exact Hb. rewrite IH. reflexivity.
 Qed.
 
-Theorem kth_roundtrip G : gio_wf G -> io_kind G <> GioBipartite -> kth_name_ok (io_name G) ->
-  exists nm, gio_read_kth (io_kind G) (gio_write_kth G) = GOk (mkIOG (io_kind G) nm (io_n G) (io_r G) (io_edges G)).
+Theorem kth_roundtrip_gen af G : gio_wf G -> io_kind G <> GioBipartite -> kth_name_ok (io_name G) ->
+  exists nm, gio_read_kth_gen af (io_kind G) (gio_write_kth G) = GOk (mkIOG (io_kind G) nm (io_n G) (io_r G) (io_edges G)).
 Proof.
-  intros (Hn & Hr & Hk & Hs & Hf) HK Hname. specialize (Hk HK). unfold gio_read_kth.
+  intros (Hn & Hr & Hk & Hs & Hf) HK Hname. specialize (Hk HK). unfold gio_read_kth_gen.
   set (ls := gt_lines (gio_write_kth G)). exists (gio_kth_name ls).
   assert (Hls : ls = gt_lines ([gt_c; gt_sp] ++ io_name G ++ [gt_nl]) ++
                      (gt_print_Z (io_n G) ++ [gt_nl]) :: map row_text (map (fun v => (v, kth_nbrs G v)) (gt_range1 (io_n G))) ++ [[gt_nl]]).
@@ -227,6 +230,10 @@ Proof.
     + unfold row_edges. cbn [fst snd]. apply Forall_forall. intros e He. apply in_map_iff in He as [u [<- Hu]]. now apply Hnb.
 Qed.
 
+Theorem kth_roundtrip G : gio_wf G -> io_kind G <> GioBipartite -> kth_name_ok (io_name G) ->
+  exists nm, gio_read_kth (io_kind G) (gio_write_kth G) = GOk (mkIOG (io_kind G) nm (io_n G) (io_r G) (io_edges G)).
+Proof. exact (kth_roundtrip_gen false G). Qed.
+
 (* ---------- bipartite kthlist ---------- *)
 Lemma dict_set_new k v : forall d, ~ In k (map fst d) -> gio_dict_set k v d = d ++ [(k, v)].
 Proof.
@@ -244,26 +251,26 @@ Proof.
   apply IH; [lia|exact Ht].
 Qed.
 
-(* rows for the left vertices a, a+1, ..., L *)
-Lemma kthb_body_rows size L (f : Z -> list Z) : forall len a hi d,
-  1 <= a -> a + Z.of_nat len = L + 1 -> L <= hi -> L <= size ->
+(* rows for the left vertices a, a+1, ..., L; `previous` is below a (a - 1 in the current code, 0 as found) *)
+Lemma kthb_body_rows af size L (f : Z -> list Z) : forall len a prev hi d,
+  1 <= a -> prev < a -> a + Z.of_nat len = L + 1 -> L <= hi -> L <= size ->
   (forall u, a <= u <= L -> Forall (fun v => L < v <= size) (f u)) ->
   (forall k, In k (map fst d) -> k < a) ->
-  gio_kthb_body size (map row_text (map (fun u => (u, f u)) (zseq a len)) ++ [[gt_nl]]) a hi d =
+  gio_kthb_body_gen af size (map row_text (map (fun u => (u, f u)) (zseq a len)) ++ [[gt_nl]]) prev a hi d =
   GOk (L + 1, d ++ map (fun u => (u, f u)) (zseq a len)).
 Proof.
-  induction len as [|len IH]; intros a hi d Ha Hlen Hhi Hsz Hf Hd.
-  - cbn [zseq seq map app gio_kthb_body]. rewrite (kth_skip_nl size). rewrite app_nil_r. do 2 f_equal. lia.
-  - rewrite zseq_S. cbn [map app gio_kthb_body]. unfold row_text at 1. cbn [fst snd].
+  induction len as [|len IH]; intros a prev hi d Ha Hprev Hlen Hhi Hsz Hf Hd.
+  - cbn [zseq seq map app gio_kthb_body_gen]. rewrite (kth_skip_nl size). rewrite app_nil_r. do 2 f_equal. lia.
+  - rewrite zseq_S. cbn [map app gio_kthb_body_gen]. unfold row_text at 1. cbn [fst snd].
     assert (Hfa : Forall (fun v => L < v <= size) (f a)) by (apply Hf; lia).
     rewrite kth_line_row; [|lia|eapply Forall_impl; [|exact Hfa]; cbn; intros; lia].
-    replace (a <=? 0) with false by lia. replace (a >? hi) with false by lia.
+    replace (a <=? prev) with false by lia. replace (a >? hi) with false by lia.
     replace (Z.max a (a + 1)) with (a + 1) by lia.
     destruct (kthb_scan_ok (a + 1) L (f a) hi Hhi) as [hi' [Es Hhi']].
     { eapply Forall_impl; [|exact Hfa]. cbn. intros; lia. }
     rewrite Es. rewrite dict_set_new.
     2:{ intros Hin. apply Hd in Hin. lia. }
-    rewrite IH; [|lia|lia|exact Hhi'|exact Hsz| |].
+    rewrite IH; [|lia|destruct af; lia|lia|exact Hhi'|exact Hsz| |].
     + rewrite <- app_assoc. reflexivity.
     + intros u Hu. apply Hf. lia.
     + intros k Hk. rewrite map_app in Hk. apply in_app_or in Hk as [Hk|Hk]; [apply Hd in Hk; lia|].
@@ -277,10 +284,10 @@ Lemma write_kthb_shape G : gio_write_kthb G =
   ((gt_print_Z (io_n G + io_r G)) ++ gt_nl :: (concat (map (fun u => row_text (u, kthb_row G u)) (gt_range1 (io_n G))) ++ [gt_nl])).
 Proof. unfold gio_write_kthb, row_text, kthb_row. cbn [fst snd]. norm_app. reflexivity. Qed.
 
-Theorem kthb_roundtrip G : gio_wf G -> io_kind G = GioBipartite -> kth_name_ok (io_name G) ->
-  exists nm, gio_read_kthb (gio_write_kthb G) = GOk (mkIOG GioBipartite nm (io_n G) (io_r G) (io_edges G)).
+Theorem kthb_roundtrip_gen af G : gio_wf G -> io_kind G = GioBipartite -> kth_name_ok (io_name G) ->
+  exists nm, gio_read_kthb_gen af (gio_write_kthb G) = GOk (mkIOG GioBipartite nm (io_n G) (io_r G) (io_edges G)).
 Proof.
-  intros (Hn & Hr & _ & Hs & Hf) HK Hname. unfold gio_read_kthb.
+  intros (Hn & Hr & _ & Hs & Hf) HK Hname. unfold gio_read_kthb_gen.
   set (ls := gt_lines (gio_write_kthb G)). exists (gio_kth_name ls).
   set (L := io_n G) in *. set (R := io_r G) in *.
   assert (Hls : ls = gt_lines ([gt_c; gt_sp] ++ io_name G ++ [gt_nl]) ++
@@ -291,7 +298,7 @@ Proof.
   rewrite Forall_forall in Hf.
   assert (Hedge : forall u v, In (u, v) (io_edges G) -> 1 <= u <= L /\ 1 <= v <= R).
   { intros u v Hin. pose proof (Hf _ Hin) as Hok. unfold edge_stored_ok in Hok. rewrite HK in Hok. exact Hok. }
-  rewrite range1_zseq. rewrite (kthb_body_rows (L + R) L (kthb_row G) (Z.to_nat L) 1 (L + R) []); try lia.
+  rewrite range1_zseq. rewrite (kthb_body_rows af (L + R) L (kthb_row G) (Z.to_nat L) 1 0 (L + R) []); try lia.
   2:{ intros u Hu. unfold kthb_row. apply Forall_forall. intros x Hx. apply in_map_iff in Hx as [v [<- Hv]].
       apply succs_In in Hv. apply Hedge in Hv. fold L. lia. }
   2:{ intros k []. }
@@ -315,3 +322,7 @@ Proof.
     apply in_map_iff in Hin as [v [Hx Hv]]. inversion Hx; subst. apply succs_In in Hv. apply Hedge in Hv.
     unfold edge_ok, G0. cbn [io_kind io_n io_r fst snd]. exact Hv.
 Qed.
+
+Theorem kthb_roundtrip G : gio_wf G -> io_kind G = GioBipartite -> kth_name_ok (io_name G) ->
+  exists nm, gio_read_kthb (gio_write_kthb G) = GOk (mkIOG GioBipartite nm (io_n G) (io_r G) (io_edges G)).
+Proof. exact (kthb_roundtrip_gen false G). Qed.
